@@ -148,6 +148,11 @@ class TWorld:
             'wsgi.multithread': True, 'wsgi.multiprocess': False, 'wsgi.run_once': False,
         }
         for k, v in headers:
+            try:
+                v.encode('latin-1')
+            except UnicodeEncodeError:
+                # PEP 3333: header bytes (here UTF-8) presented as a latin-1 decoded str
+                v = v.encode('utf-8').decode('latin-1')
             key = k.upper().replace('-', '_')
             if key in ('CONTENT_LENGTH', 'CONTENT_TYPE'):
                 env[key] = v
